@@ -71,7 +71,7 @@ func halfwayDecimal32(f float32) model.Val {
 
 func genC15(t *rapid.T) (c C15Case) {
 	c = C15Case{M: h.GenMode(t, "zmode")}
-	c.Op = rapid.SampledFrom([]string{"setfloat64", "setfloat64", "setfloat", "float64", "float64", "float32", "float", "float64f", "float32f", "setfloatx"}).Draw(t, "op")
+	c.Op = rapid.SampledFrom([]string{"setfloat64", "setfloat64", "setfloat", "float64", "float64", "float32", "float", "float64f", "float32f", "setfloatx", "floatx"}).Draw(t, "op")
 	faithful := false
 	if c.Op == "float64f" || c.Op == "float32f" {
 		// same inputs as float64/float32, weaker oracle that also holds inside the known-finding zone
@@ -249,6 +249,22 @@ func genC15(t *rapid.T) (c C15Case) {
 			}
 			c.X = float64Spec(f)
 			c.X.M = h.GenMode(t, "xm")
+			if c.X.F == "f" && rapid.IntRange(0, 3).Draw(t, "stray") == 0 {
+				// ... followed by zeros and one stray digit, a few digits to forty thousand digits below: the value comes
+				// back unchanged, the accuracy must say on which side of x it lies
+				depth := rapid.IntRange(1, 60).Draw(t, "strayd")
+				switch rapid.IntRange(0, 4).Draw(t, "straycls") {
+				case 0:
+					depth = rapid.IntRange(60, 3000).Draw(t, "strayd2")
+				case 1:
+					depth = rapid.SampledFrom([]int{1024, 2048}).Draw(t, "straywords")*h.DW + rapid.IntRange(-40, 400).Draw(t, "strayd3")
+				}
+				v := c.X.Val()
+				w := model.AddX(v, model.MkFinite(rapid.Bool().Draw(t, "strayneg"), string(byte('1'+rapid.IntRange(0, 8).Draw(t, "straydig"))), v.Exp-int64(len(v.Digits))-int64(depth))).Val
+				if w.Form == model.Finite && w.Neg == v.Neg {
+					c.X = h.SpecOf(w, uint(len(w.Digits)), c.X.M)
+				}
+			}
 		case 3:
 			// around the ends of the format's range
 			edges := []float64{math.MaxFloat64, math.SmallestNonzeroFloat64, 2.2250738585072014e-308}
@@ -273,6 +289,19 @@ func genC15(t *rapid.T) (c C15Case) {
 				c.X.E = int64(rapid.IntRange(-lim, lim).Draw(t, "xe"))
 			}
 		}
+	case "floatx":
+		// Float far from the ordinary range: decimal exponents up to the limits of big.Float's own exponent range
+		// (about +-6.4e8), where the powers of five behind the conversion are large
+		c.X = h.GenFinite(t, "x", 60)
+		c.X.Hist = ""
+		c.X.E = int64(rapid.IntRange(-640000000, 640000000).Draw(t, "xe"))
+		if rapid.Bool().Draw(t, "xemid") {
+			c.X.E = int64(rapid.IntRange(-30000000, 30000000).Draw(t, "xe2"))
+		}
+		if lim := uint(len(c.X.D)) + 500; c.X.P > lim {
+			c.X.P = lim
+		}
+		c.FP = uint(rapid.SampledFrom([]int{24, 53, 64, 113, 300}).Draw(t, "fp"))
 	case "float":
 		c.X = h.GenAny(t, "x", 600)
 		if c.X.F == "f" {
@@ -548,6 +577,53 @@ func checkC15(c C15Case, o *h.Obs) *h.Fail {
 			return h.Failf("acc", "%s(%v) = %v with accuracy %v, sign(returned - x) is %v", c.Op, xv, gf, model.Acc(ga), wacc)
 		}
 		return nil
+	case "floatx":
+		x := c.X.Build()
+		xv := c.X.Val()
+		f := x.Float(new(big.Float).SetPrec(c.FP))
+		if f.Prec() != c.FP || f.Signbit() != xv.Neg || f.IsInf() || f.Sign() == 0 {
+			return h.Failf("range", "Float(%v) at %d bits = %s (precision %d)", xv, c.FP, f.Text('p', 0), f.Prec()) // ('p': a decimal rendering of 2^(2e9) takes minutes)
+		}
+		o.NonTrivial()
+		// reference: digits x 10^(exp-len) in 900-bit binary arithmetic (the power of ten by squaring)
+		const wp = 900
+		m, _ := new(big.Int).SetString(xv.Digits, 10)
+		ref := new(big.Float).SetPrec(wp).SetInt(m)
+		e := xv.Exp - int64(len(xv.Digits))
+		n := e
+		if n < 0 {
+			n = -n
+		}
+		pow := new(big.Float).SetPrec(wp).SetInt64(1)
+		base := new(big.Float).SetPrec(wp).SetInt64(10)
+		for k := n; k > 0; k >>= 1 {
+			if k&1 == 1 {
+				pow.Mul(pow, base)
+			}
+			if k > 1 {
+				base.Mul(base, base)
+			}
+		}
+		if e >= 0 {
+			ref.Mul(ref, pow)
+		} else {
+			ref.Quo(ref, pow)
+		}
+		if xv.Neg {
+			ref.Neg(ref)
+		}
+		if ref.IsInf() || ref.Sign() == 0 || pow.IsInf() {
+			o.Label("floatx:beyond-big.Float-range")
+			return nil
+		}
+		diff := new(big.Float).SetPrec(wp).Sub(f, ref)
+		diff.Abs(diff)
+		ulp := new(big.Float).SetPrec(wp).SetMantExp(big.NewFloat(1), f.MantExp(nil)-int(c.FP))
+		if diff.Cmp(new(big.Float).SetPrec(wp).Mul(ulp, big.NewFloat(64))) > 0 {
+			q, _ := new(big.Float).Quo(diff, ulp).Float64()
+			return h.Failf("ulp", "Float(%v) at %d bits = %s: %.4g binary ulp away from the value", xv, c.FP, f.Text('p', 0), q)
+		}
+		return nil
 	case "float":
 		x := c.X.Build()
 		xv := c.X.Val()
@@ -731,7 +807,7 @@ func checkSetFloatExtreme(c C15Case, o *h.Obs, z *decimal.Decimal) *h.Fail {
 	return nil
 }
 
-const ruleC15 = "rapid-generated cases. SetFloat64: float64 bit patterns (uniform bits, subnormals, extremes, powers of two, small integers and dyadic fractions, NaN payloads, +-Inf, +-0) x receiver precision {0, 1-6, 15-19, 1-120, 700-800 (holds every expansion)} x modes x previous receiver contents: sign kept, +-0/+-Inf mapped to themselves, NaN => ErrNaN, exact when the expansion fits, else within 1 ulp of the correctly rounded value. SetFloat: big.Float of precision 1..2000 bits, exponents to +-3000 (quick) / +-30000 (thorough), +-0, +-Inf: same, tolerance 64 ulp. SetFloat at the ends of big.Float's own exponent range (binary exponent within 400 of +-2^31, mantissas with the top and often the lowest bit set, precisions around 64): the stored value must be finite, of the right sign, and within 64 units of the binary value when both are scaled into the ordinary range with 600-bit arithmetic. Float64/Float32: Decimals exactly halfway between two adjacent floats and halfway +- 10^-k (built from the float), exact expansions of floats (must come back bit for bit), values around MaxFloat / SmallestNonzero / the smallest normal, generic values with exponents inside and far outside the range: the returned bits must equal big.Rat.Float64/Float32 of the exact rational (correctly rounded, ties to even), accuracy == sign(returned - x), saturation to +-Inf / +-0; in the two razor zones where 'nearest' and the documented saturation rule disagree ((Max, Max+half ulp) and (Smallest/2, Smallest)) both answers are accepted and counted. While the known finding F-10 (double rounding) is listed, float64/float32 cases whose value lies within 2^-6 / 2^-3 ulp of a float or of a midpoint are excluded by an input predicate and counted, and the same inputs are also run under a weaker oracle that holds there too (float64f/float32f: the result is one of the two floats enclosing x, sign preserved). Float: within 64 binary ulps at the destination's precision, sign and specials preserved, |exp| <= 5000. Non-trivial = inexact conversion, halfway-adjacent input, subnormal or saturating result."
+const ruleC15 = "rapid-generated cases. SetFloat64: float64 bit patterns (uniform bits, subnormals, extremes, powers of two, small integers and dyadic fractions, NaN payloads, +-Inf, +-0) x receiver precision {0, 1-6, 15-19, 1-120, 700-800 (holds every expansion)} x modes x previous receiver contents: sign kept, +-0/+-Inf mapped to themselves, NaN => ErrNaN, exact when the expansion fits, else within 1 ulp of the correctly rounded value. SetFloat: big.Float of precision 1..2000 bits, exponents to +-3000 (quick) / +-30000 (thorough), +-0, +-Inf: same, tolerance 64 ulp. SetFloat at the ends of big.Float's own exponent range (binary exponent within 400 of +-2^31, mantissas with the top and often the lowest bit set, precisions around 64): the stored value must be finite, of the right sign, and within 64 units of the binary value when both are scaled into the ordinary range with 600-bit arithmetic. Float64/Float32: Decimals exactly halfway between two adjacent floats and halfway +- 10^-k (built from the float), exact expansions of floats (must come back bit for bit), values around MaxFloat / SmallestNonzero / the smallest normal, generic values with exponents inside and far outside the range: the returned bits must equal big.Rat.Float64/Float32 of the exact rational (correctly rounded, ties to even), accuracy == sign(returned - x), saturation to +-Inf / +-0; in the two razor zones where 'nearest' and the documented saturation rule disagree ((Max, Max+half ulp) and (Smallest/2, Smallest)) both answers are accepted and counted. While the known finding F-10 (double rounding) is listed, float64/float32 cases whose value lies within 2^-6 / 2^-3 ulp of a float or of a midpoint are excluded by an input predicate and counted, and the same inputs are also run under a weaker oracle that holds there too (float64f/float32f: the result is one of the two floats enclosing x, sign preserved). Float: within 64 binary ulps at the destination's precision, sign and specials preserved, |exp| <= 5000; and (floatx) values of up to 60 digits with decimal exponents up to +-6.4e8, the limit of big.Float's own range, compared with digits x 10^e evaluated in 900-bit binary arithmetic (power of ten by squaring), same tolerance. Non-trivial = inexact conversion, halfway-adjacent input, subnormal or saturating result."
 
 // floatNearMidpoint: x lies within 2^-6 (Float64) / 2^-3 (Float32) of the gap between two adjacent floats from
 // their midpoint: the zone where rounding through the intermediate 64/32-bit big.Float first (itself off by a few
